@@ -194,6 +194,35 @@ func BinomBig(n int, p float64) (*DiscTable, error) {
 	return t, nil
 }
 
+// BinomMomentsClosed: n p and n p (1-p) in exact rational arithmetic (p the
+// exact value of the float64), each rounded once to float64. A second opinion
+// on the moments the tables derive from their probabilities.
+func BinomMomentsClosed(n int, p float64) (mean, vr float64) {
+	P := new(big.Rat).SetFloat64(p)
+	m := new(big.Rat).Mul(new(big.Rat).SetInt64(int64(n)), P)
+	v := new(big.Rat).Mul(m, new(big.Rat).Sub(big.NewRat(1, 1), P))
+	mean, _ = m.Float64()
+	vr, _ = v.Float64()
+	return
+}
+
+// HypergMomentsClosed: draws k/n and draws k (n-k) (n-draws) / (n^2 (n-1)),
+// exact rationals rounded once.
+func HypergMomentsClosed(n, k, draws int) (mean, vr float64) {
+	N, K, D := big.NewInt(int64(n)), big.NewInt(int64(k)), big.NewInt(int64(draws))
+	mn := new(big.Int).Mul(D, K)
+	mean, _ = new(big.Rat).SetFrac(mn, N).Float64()
+	if n < 2 {
+		return mean, 0
+	}
+	vn := new(big.Int).Mul(mn, new(big.Int).Sub(N, K))
+	vn.Mul(vn, new(big.Int).Sub(N, D))
+	vd := new(big.Int).Mul(N, N)
+	vd.Mul(vd, new(big.Int).Sub(N, big.NewInt(1)))
+	vr, _ = new(big.Rat).SetFrac(vn, vd).Float64()
+	return
+}
+
 // hypergBrute counts, by enumerating every subset of size draws of n items
 // (items 0..k-1 marked), how many subsets hold j marked items.
 func hypergBrute(n, k, draws int) (lo int, counts []int64, total int64) {
